@@ -61,6 +61,13 @@ func (env *rEnv) typeOf(n *rNode) types.Type {
 				}
 			}
 		}
+		if n.Text == "lastfound" {
+			for i := len(env.post.trace) - 1; i >= 0; i-- {
+				if ev := env.post.trace[i]; ev.Kind == "maplookup.present" && ev.Typ != nil {
+					return ev.Typ
+				}
+			}
+		}
 		if n.Text == "cbret" && len(n.Args) == 1 {
 			if idx, ok := constIndex(env.eval(n.Args[0])); ok {
 				for i := len(env.post.trace) - 1; i >= 0; i-- {
@@ -804,6 +811,28 @@ func (env *rEnv) call(n *rNode) Value {
 			}
 		}
 		return sym(Or(alts...))
+	case "lastfound":
+		// lastfound(): the entry the last successful lookup in a structured input map returned
+		for i := len(env.post.trace) - 1; i >= 0; i-- {
+			if ev := env.post.trace[i]; ev.Kind == "maplookup.present" {
+				if v, ok := ev.Extra.(Value); ok {
+					return v
+				}
+			}
+		}
+		return env.fail("no successful map lookup on this path")
+	case "extarg":
+		// extarg("Name", i): i-th argument of the last call to that unmodelled external function
+		if n.Args[0].Op == "str" {
+			if idx, ok := constIndex(env.eval(n.Args[1])); ok {
+				for i := len(env.post.trace) - 1; i >= 0; i-- {
+					if ev := env.post.trace[i]; ev.Kind == "ext:"+n.Args[0].Text && idx < len(ev.Args) {
+						return ev.Args[idx]
+					}
+				}
+			}
+			return env.fail("no call to external %s on this path", n.Args[0].Text)
+		}
 	case "stmtText":
 		// stmtText(i): the text of the i-th SQL statement issued on this path
 		if idx, ok := constIndex(env.eval(n.Args[0])); ok {
